@@ -357,19 +357,79 @@ func c35KeyDerivation() *explore.Scenario {
 	}
 }
 
+// c35Forged — a forged ClientSessionState carries exactly what was supplied.
+func c35Forged() *explore.Scenario {
+	lens := []int{0, 1, 16, 31, 32, 33, 47, 48, 49, 64, 255}
+	versions := []uint16{tls.VersionTLS10, tls.VersionTLS11, tls.VersionTLS12, tls.VersionTLS13}
+	suites := []uint16{tls.TLS_AES_128_GCM_SHA256, tls.TLS_AES_256_GCM_SHA384, tls.TLS_ECDHE_ECDSA_WITH_AES_128_GCM_SHA256, tls.TLS_RSA_WITH_AES_256_CBC_SHA, 0x0a0a}
+	tickets := []int{0, 1, 300}
+	return &explore.Scenario{
+		Name: "forged-client-session-state-accessors",
+		Run: func(x *explore.X) (r explore.Result) {
+			ln := lens[x.Choose("secretlen", len(lens))]
+			vers := versions[x.Choose("version", len(versions))]
+			suite := suites[x.Choose("suite", len(suites))]
+			tl := tickets[x.Choose("ticketlen", len(tickets))]
+			via := x.Choose("via", 2) // 0 constructor, 1 setters on an empty state
+			secret := payload(ln, 0x35)
+			ticket := payload(tl, 0x53)
+			what := fmt.Sprintf("secret=%dB vers=%04x suite=%04x ticket=%dB via=%d", ln, vers, suite, tl, via)
+			var css *tls.ClientSessionState
+			if pm := catch(func() {
+				if via == 0 {
+					css = tls.MakeClientSessionState(ticket, vers, suite, secret, nil, nil)
+				} else {
+					css = tls.MakeClientSessionState(nil, 0, 0, nil, nil, nil)
+					css.SetSessionTicket(ticket)
+					css.SetVers(vers)
+					css.SetCipherSuite(suite)
+					css.SetMasterSecret(secret)
+				}
+			}); pm != "" {
+				r.Violate("C35|forged|panic", "%s: %s", what, truncStr(pm, 200))
+				return
+			}
+			if !bytes.Equal(css.MasterSecret(), secret) {
+				r.Violate(fmt.Sprintf("C35|forged|master-secret-altered|len=%d", ln), "%s: MasterSecret() = %d bytes %x..., supplied %d bytes", what, len(css.MasterSecret()), firstN(css.MasterSecret(), 8), ln)
+			}
+			if css.Vers() != vers || css.CipherSuite() != suite {
+				r.Violate("C35|forged|version-or-suite-altered", "%s: got %04x/%04x", what, css.Vers(), css.CipherSuite())
+			}
+			if !bytes.Equal(css.SessionTicket(), ticket) {
+				r.Violate("C35|forged|ticket-altered", "%s: ticket %d bytes", what, len(css.SessionTicket()))
+			}
+			// the caller's slice is what it supplied: later edits by the library must not reach it
+			if ln > 0 && secret[0] != payload(ln, 0x35)[0] {
+				r.Violate("C35|forged|caller-slice-modified", "%s", what)
+			}
+			r.Nontrivial = true
+			r.Obs = fmt.Sprintf("viol=%d", len(r.Viol))
+			r.Class = what
+			return
+		},
+	}
+}
+
+func firstN(b []byte, n int) []byte {
+	if len(b) < n {
+		return b
+	}
+	return b[:n]
+}
+
 func c35Scenarios(thorough bool) []*explore.Scenario {
 	d := 3
 	if thorough {
 		d = 5
 	}
-	return []*explore.Scenario{c35RoundTrip(thorough), c35Rotation(d), c35KeyDerivation()}
+	return []*explore.Scenario{c35RoundTrip(thorough), c35Rotation(d), c35KeyDerivation(), c35Forged()}
 }
 
 func init() {
 	register(&Prop{ID: "C35", Level: "exploration", Variant: "A", Scenarios: c35Scenarios,
 		Run: func(c *explore.Check, thorough bool) {
-			c.Rule = "SessionStates captured from real TLS 1.2 (EMS / no EMS) and 1.3 handshakes with and without a client certificate x Extra of 0/1/3 entries x key sets of 1-3 keys: decrypt(encrypt(s)) serialises identically; every single-bit flip (every 3rd byte for tickets > 400 B in quick), every truncation and 1-4 appended bytes yield (nil,nil); oldest configured key accepted, unconfigured key refused; every history of <=3 (5) explicit rotations and of <=5 (7) clock advances from {0,23h,25h,3d,8d} under auto-managed keys against a reference model; TicketKeyFromBytes on all single-byte-set inputs vs installed keys and SHA-512 slices. distinct = (state, keys) / history"
-			c.Assumptions = []string{"reference model of auto rotation: a new key every 24h on access, keys older than 7 days dropped at rotation time", "resumption through forged ClientSessionState is exercised by C20"}
+			c.Rule = "SessionStates captured from real TLS 1.2 (EMS / no EMS) and 1.3 handshakes with and without a client certificate x Extra of 0/1/3 entries x key sets of 1-3 keys: decrypt(encrypt(s)) serialises identically; every single-bit flip (every 3rd byte for tickets > 400 B in quick), every truncation and 1-4 appended bytes yield (nil,nil); oldest configured key accepted, unconfigured key refused; every history of <=3 (5) explicit rotations and of <=5 (7) clock advances from {0,23h,25h,3d,8d} under auto-managed keys against a reference model; TicketKeyFromBytes on all single-byte-set inputs vs installed keys and SHA-512 slices; forged ClientSessionStates (constructor and setters) x secret lengths {0,1,16,31,32,33,47,48,49,64,255} x 4 versions x 5 suites x 3 ticket lengths return exactly the supplied version, suite, ticket and master secret. distinct = (state, keys) / history"
+			c.Assumptions = []string{"reference model of auto rotation: a new key every 24h on access, keys older than 7 days dropped at rotation time", "end-to-end resumption through a forged ClientSessionState (48-byte TLS 1.2 master secret) is exercised by C20; here the state itself is checked for every secret length"}
 			runAll(c, c35Scenarios(thorough), 0)
 			c.Gate(c.Total.Counters["mutated_tickets"] > 10000, "non-vacuity: %d mutated tickets", c.Total.Counters["mutated_tickets"])
 		}})
